@@ -18,6 +18,8 @@ EXPLANATION = (
 
 
 def run(ctx: Ctx) -> None:
+    from .c09 import rule_lc_position
+    rule_lc_position(ctx)  # every orbit explorer steps with local_comp_graph
     from ..rules import shapes as _shapes
     _shapes.rule_relabel_map_self(ctx)
     _shapes.rule_relabel_map_direction(ctx)
